@@ -303,6 +303,16 @@ def const_test(e, consts):
         if any(v is not _UNDEC and v for v in vals):
             return True
         return _UNDEC if any(v is _UNDEC for v in vals) else False
+    if isinstance(e, ast.Call) and isinstance(e.func, ast.Name) and e.func.id == "isinstance" and len(e.args) == 2 and isinstance(e.args[0], ast.Name):
+        if e.args[0].id not in consts:
+            return _UNDEC
+        v = consts[e.args[0].id]
+        tn = [t.id for t in (e.args[1].elts if isinstance(e.args[1], ast.Tuple) else [e.args[1]]) if isinstance(t, ast.Name)]
+        py = {"int": int, "list": list, "str": str, "float": float, "tuple": tuple, "dict": dict, "bool": bool}
+        ts = tuple(py[t] for t in tn if t in py)
+        if len(ts) != len(tn):
+            return _UNDEC
+        return isinstance(v, ts) and not (int in ts and bool not in ts and isinstance(v, bool))
     if isinstance(e, ast.Compare) and len(e.ops) == 1:
         l, r = const_test(e.left, consts), const_test(e.comparators[0], consts)
         if isinstance(e.comparators[0], (ast.Tuple, ast.List)) and l is not _UNDEC:
@@ -425,7 +435,10 @@ def seq_env(stmts, upto=None, env=None):
         if s is upto:
             break
         if isinstance(s, ast.Assign) and len(s.targets) == 1 and isinstance(s.targets[0], ast.Name):
-            env[s.targets[0].id] = _SubstEnv(env).visit(copy.deepcopy(s.value))
+            if isinstance(s.value, (ast.List, ast.Dict, ast.Set)) and not getattr(s.value, "elts", getattr(s.value, "keys", None)):
+                env.pop(s.targets[0].id, None)  # empty mutable accumulator: keep the name opaque
+            else:
+                env[s.targets[0].id] = _SubstEnv(env).visit(copy.deepcopy(s.value))
         elif isinstance(s, ast.Assign) and len(s.targets) == 1 and isinstance(s.targets[0], (ast.Tuple, ast.List)) \
                 and isinstance(s.value, (ast.Tuple, ast.List)) and len(s.value.elts) == len(s.targets[0].elts) \
                 and all(isinstance(t, ast.Name) for t in s.targets[0].elts):
@@ -571,3 +584,79 @@ def access_path(e, tables):
             if not all(is_full_slice(i) for i in idx):
                 return None
     return Access(cur.id, col, row)
+
+
+def prune(body, consts):
+    """copy of `body` in which every `if` decidable under `consts` is replaced by the taken branch, recursively inside loops,
+    try and with blocks (compound nodes are shallow-copied, simple statements are shared with the original tree)."""
+    out = []
+    for s in body:
+        if isinstance(s, ast.If):
+            t = const_test(s.test, consts)
+            if t is not _UNDEC:
+                out.extend(prune(s.body if t else s.orelse, consts))
+                continue
+            n = copy.copy(s)
+            n.body = prune(s.body, consts) or [ast.Pass()]
+            n.orelse = prune(s.orelse, consts)
+            out.append(n)
+        elif isinstance(s, (ast.For, ast.While, ast.With)):
+            n = copy.copy(s)
+            n.body = prune(s.body, consts) or [ast.Pass()]
+            if hasattr(s, "orelse"):
+                n.orelse = prune(s.orelse, consts)
+            out.append(n)
+        elif isinstance(s, ast.Try):
+            n = copy.copy(s)
+            n.body = prune(s.body, consts) or [ast.Pass()]
+            n.orelse = prune(s.orelse, consts)
+            n.finalbody = prune(s.finalbody, consts)
+            hs = []
+            for h in s.handlers:
+                hh = copy.copy(h)
+                hh.body = prune(h.body, consts) or [ast.Pass()]
+                hs.append(hh)
+            n.handlers = hs
+            out.append(n)
+        else:
+            out.append(s)
+    return out
+
+
+class PrunedFn:
+    """a function specialised to constant seeds (decidable branches removed everywhere); usable where a FuncInfo is expected"""
+
+    def __init__(self, fi, consts):
+        self.fi = fi
+        self.mod, self.cls, self.qual = fi.mod, fi.cls, fi.qual
+        self.is_property = self.is_static = self.is_classmethod = False
+        body = prune(fi.node.body, consts)
+        node = ast.FunctionDef(name=fi.node.name, args=fi.node.args, body=body or [ast.Pass()], decorator_list=[], returns=None)
+        ast.copy_location(node, fi.node)
+        self.node = node
+
+
+def parent_map(root):
+    pm = {}
+    for n in ast.walk(root):
+        for c in ast.iter_child_nodes(n):
+            pm[c] = n
+    return pm
+
+
+def enclosing(pm, node, types):
+    n = pm.get(node)
+    while n is not None:
+        if isinstance(n, types):
+            return n
+        n = pm.get(n)
+    return None
+
+
+def branch_of(pm, node, ifnode):
+    """'body' / 'orelse' / None: in which branch of `ifnode` does `node` sit"""
+    for field in ("body", "orelse"):
+        for s in getattr(ifnode, field):
+            if any(x is node for x in ast.walk(s)):
+                return field
+    return None
